@@ -4,16 +4,18 @@ EXTENDS GrammarLang, TLC, Json, IOUtils
 
 Rec == ndJsonDeserialize(IOEnv.TRACE)
 VARIABLE l
-N == 5
+(* length bound, chosen by the driver from the number of terminals (5 up to 8 terminals, 4 up to 14, else 3)
+   so that the bounded languages stay well below TLC's set-size limit *)
+Nof(r) == r.n
 
 Opt(r) ==
     /\ r.ev = "Opt"
-    /\ LangN(r.pre, N) = LangN(r.post, N)
+    /\ LangN(r.pre, Nof(r)) = LangN(r.post, Nof(r))
     /\ Specials(r.pre) \subseteq Specials(r.post)
 
 Explain(r) ==
     r.ev # "Opt" \/
-    PrintT(<<"WHY", "only-pre", LangN(r.pre, N) \ LangN(r.post, N), "only-post", LangN(r.post, N) \ LangN(r.pre, N),
+    PrintT(<<"WHY", "only-pre", LangN(r.pre, Nof(r)) \ LangN(r.post, Nof(r)), "only-post", LangN(r.post, Nof(r)) \ LangN(r.pre, Nof(r)),
              "specials-lost", Specials(r.pre) \ Specials(r.post)>>)
 
 Init == l = 1
